@@ -25,7 +25,7 @@ EXPLANATION = ("body VCs of __contains__, __add__, __radd__ (through the real _a
 
 
 def obligations(ctx):
-    return ctx.verify(FUNCTIONS) + lemmas(ctx)
+    return ctx.verify(FUNCTIONS) + ctx.part(lemmas)
 
 
 def lemmas(ctx):
